@@ -428,4 +428,72 @@ pub mod verif_hooks {
                 .unwrap_or(0),
         )
     }
+    /// (glyph id, mask, glyph_props, unicode_props, cluster)
+    pub type IF = (u32, u32, u16, u16, u32);
+
+    pub(crate) fn mk_buffer_flags(
+        infos: &[IF],
+        pos: &[P],
+        len: usize,
+        direction: Direction,
+        buffer_flags: u32,
+        cluster_level: u8,
+    ) -> hb_buffer_t {
+        let mut b = hb_buffer_t::new();
+        b.direction = direction;
+        b.flags = crate::BufferFlags::from_bits_truncate(buffer_flags);
+        b.cluster_level = match cluster_level {
+            0 => HB_BUFFER_CLUSTER_LEVEL_MONOTONE_GRAPHEMES,
+            1 => HB_BUFFER_CLUSTER_LEVEL_MONOTONE_CHARACTERS,
+            _ => HB_BUFFER_CLUSTER_LEVEL_CHARACTERS,
+        };
+        b.pos = pos.iter().map(|p| mk_pos(*p)).collect();
+        b.info = infos
+            .iter()
+            .map(|i| {
+                let mut g = hb_glyph_info_t::default();
+                g.glyph_id = i.0;
+                g.mask = i.1;
+                g.cluster = i.4;
+                g.set_glyph_props(i.2);
+                g.set_unicode_props(i.3);
+                g
+            })
+            .collect();
+        b.len = len;
+        b.have_positions = true;
+        b
+    }
+
+    /// The private `machine_kern` on a buffer whose clusters, masks, cluster level and buffer flags the caller chooses,
+    /// so that the glyph flags it sets (unsafe_to_break / unsafe_to_concat) can be read back.
+    /// Returns (positions, HAS_GPOS_ATTACHMENT set, masks, scratch_flags).
+    pub fn machine_kern_flags(
+        face: &hb_font_t,
+        infos: &[IF],
+        pos: &[P],
+        len: usize,
+        kern_mask: hb_mask_t,
+        cross_stream: bool,
+        direction: Direction,
+        buffer_flags: u32,
+        cluster_level: u8,
+        pairs: &[(u32, u32, i32)],
+    ) -> (Vec<P>, bool, Vec<u32>, u32) {
+        let mut b = mk_buffer_flags(infos, pos, len, direction, buffer_flags, cluster_level);
+        machine_kern(face, &mut b, kern_mask, cross_stream, |l, r| {
+            pairs
+                .iter()
+                .find(|p| p.0 == l && p.1 == r)
+                .map(|p| p.2)
+                .unwrap_or(0)
+        });
+        let has = b.scratch_flags & HB_BUFFER_SCRATCH_FLAG_HAS_GPOS_ATTACHMENT != 0;
+        (
+            b.pos.iter().map(rd_pos).collect(),
+            has,
+            b.info.iter().map(|i| i.mask).collect(),
+            b.scratch_flags,
+        )
+    }
 }
